@@ -103,12 +103,15 @@ static int connect_abstract(const std::string& addr) {
 
 static int recv_fd_(int sock, int timeout_ms) {
   struct pollfd pfd = {sock, POLLIN, 0};
-  if (poll(&pfd, 1, timeout_ms) <= 0) return -2;
+  int pr; int tries = 0;
+  while ((pr = poll(&pfd, 1, timeout_ms)) < 0 && errno == EINTR && tries++ < 100) {}   // (libFuzzer's SIGALRM interrupts us)
+  if (pr <= 0) return -2;
   char c; struct iovec iov = {&c, 1};
   char ctl[CMSG_SPACE(sizeof(int))];
   struct msghdr mh; memset(&mh, 0, sizeof mh);
   mh.msg_iov = &iov; mh.msg_iovlen = 1; mh.msg_control = ctl; mh.msg_controllen = sizeof ctl;
-  if (recvmsg(sock, &mh, MSG_CMSG_CLOEXEC) <= 0) return -1;
+  ssize_t rn; while ((rn = recvmsg(sock, &mh, MSG_CMSG_CLOEXEC)) < 0 && errno == EINTR) {}
+  if (rn <= 0) return -1;
   for (struct cmsghdr* cm = CMSG_FIRSTHDR(&mh); cm; cm = CMSG_NXTHDR(&mh, cm))
     if (cm->cmsg_level == SOL_SOCKET && cm->cmsg_type == SCM_RIGHTS) { int fd; memcpy(&fd, CMSG_DATA(cm), sizeof fd); return fd; }
   return -1;
@@ -150,7 +153,7 @@ int Bus::connect_raw(uid_t uid, gid_t gid, const std::vector<gid_t>& groups) {
     fd = recv_fd_(sp[0], 10000);
     close(sp[0]);
     int st = 0;
-    waitpid(pid, &st, 0);
+    while (waitpid(pid, &st, 0) < 0 && errno == EINTR) {}
     if (fd < 0) harness_error("uid-switching helper child failed to pass a connected socket");
   }
   int fl = fcntl(fd, F_GETFL);
